@@ -17,7 +17,8 @@ NAME_POOLS = [
     ["", ".", "..", "_0001", "a//b.c"],
 ]
 CONTENTS = [b"", b"one", b"two", b"\x00\xff"]
-CTYPES = ["application/pdf", "text/plain", ""]
+# content types are opaque tokens for the container: variants that differ only in case or parameters are different types
+CTYPES = ["application/pdf", "text/plain", "", "text/plain; charset=utf-8", "TEXT/PLAIN", "text/plain; charset=iso-8859-1"]
 
 
 def gen_case(rng, maxlen):
@@ -28,7 +29,7 @@ def gen_case(rng, maxlen):
         if rng.random() < 0.62:
             # bias towards conflicts: few contents, few types
             ops.append(("add", rng.choice(pool), rng.randrange(len(CONTENTS) if rng.random() < .5 else 2),
-                        rng.randrange(len(CTYPES) if rng.random() < .3 else 2)))
+                        rng.randrange(len(CTYPES) if rng.random() < .35 else 2)))
         else:
             ops.append(("del", rng.choice(pool)))
     return pool, ops
@@ -125,6 +126,122 @@ def run_sdk(pool, ops):
     return trace, fail
 
 
+class Client:
+    """one container with its independent reference (name -> (bytes, content type)) as a client would keep it"""
+
+    def __init__(self, pool):
+        from basyx.aas.adapter.aasx import DictSupplementaryFileContainer
+        self.cont = DictSupplementaryFileContainer()
+        self.ghost = {}
+        self.pool = pool
+
+    def step(self, op):
+        """applies op; returns a failure message or None"""
+        cont, ghost = self.cont, self.ghost
+        try:
+            if op[0] == "add":
+                _, name, ci, ti = op
+                want = (CONTENTS[ci], CTYPES[ti])
+                res = cont.add_file(name, io.BytesIO(CONTENTS[ci]), CTYPES[ti])
+                if not isinstance(res, str):
+                    return "add_file returned a non-string"
+                if ghost.get(name) in (None, want) and res != name:
+                    return f"add_file({name!r}) returned {res!r} although the name was free or identical"
+                if res in ghost and ghost[res] != want:
+                    return f"add_file handed out name {res!r} that holds a different file"
+                ghost[res] = want
+            else:
+                cont.delete_file(op[1])
+                if op[1] not in ghost:
+                    return f"delete_file({op[1]!r}) of an unknown name did not raise KeyError"
+                del ghost[op[1]]
+        except KeyError:
+            if op[0] == "add" or op[1] in ghost:
+                return f"{op} raised KeyError"
+        except Exception as e:
+            return f"{op} raised {type(e).__name__}: {e}"
+        return None
+
+    def query(self, n):
+        """all accessors on one name against the reference; returns a failure message or None"""
+        cont, ghost = self.cont, self.ghost
+        import hashlib
+        try:
+            got = {}
+            for key, f in (("type", lambda: cont.get_content_type(n)), ("sha", lambda: cont.get_sha256(n)),
+                           ("bytes", lambda: (lambda b: (cont.write_file(n, b), b.getvalue())[1])(io.BytesIO()))):
+                try:
+                    got[key] = f()
+                except KeyError:
+                    got[key] = KeyError
+            if n in ghost:
+                b, t = ghost[n]
+                if got != {"type": t, "sha": hashlib.sha256(b).digest(), "bytes": b}:
+                    return f"name {n!r} yields other bytes/content type/hash than supplied"
+                if n not in cont:
+                    return f"membership of {n!r} wrong"
+            else:
+                if any(v is not KeyError for v in got.values()):
+                    return f"query of absent name {n!r} did not raise KeyError"
+                if n in cont:
+                    return f"membership of {n!r} wrong"
+        except Exception as e:
+            return f"observation raised {type(e).__name__}: {e}"
+        return None
+
+    def listing(self):
+        try:
+            listed = list(self.cont)
+        except Exception as e:
+            return f"observation raised {type(e).__name__}: {e}"
+        if sorted(listed) != sorted(self.ghost) or len(set(listed)) != len(listed):
+            return f"listed names {sorted(listed)} != names handed out {sorted(self.ghost)}"
+        return None
+
+
+def run_sparse(pool, ops, mode):
+    """Second observation schedule (caches make the order of observations matter): after each operation only the name the
+    operation touched is queried FIRST (mode 0), or nothing is queried until the end (mode 1), or the names are queried in
+    reverse pool order (mode 2); full comparison at the end.  Returns (k, msg) or None."""
+    c = Client(pool)
+    for k, op in enumerate(ops):
+        msg = c.step(op)
+        if msg is None and mode == 0:
+            msg = c.query(op[1]) or c.listing()
+        if msg is None and mode == 2:
+            for n in reversed(pool):
+                msg = msg or c.query(n)
+        if msg:
+            return (k, msg)
+    for n in list(pool) + sorted(c.ghost):
+        msg = c.query(n)
+        if msg:
+            return (len(ops) - 1, msg)
+    msg = c.listing()
+    return (len(ops) - 1, msg) if msg else None
+
+
+def run_pair(pool, ops_a, ops_b, schedule):
+    """Two containers alive at the same time, operations interleaved by schedule (list of 0/1): each must behave like its own
+    reference whatever the other does.  Returns (k, msg) or None; k indexes the merged history."""
+    cl = [Client(pool), Client(pool)]
+    its = [iter(ops_a), iter(ops_b)]
+    merged = 0
+    for who in schedule:
+        op = next(its[who], None)
+        if op is None:
+            continue
+        msg = cl[who].step(op)
+        for c in cl:
+            msg = msg or c.listing()
+            for n in pool:
+                msg = msg or c.query(n)
+        if msg:
+            return (merged, f"container {who}: " + msg)
+        merged += 1
+    return None
+
+
 def coq_op(op):
     if op[0] == "add":
         return f"Add {coq_str(op[1])} {op[2]}%nat {op[3]}%nat"
@@ -199,6 +316,29 @@ def run(chk):
         terms.append(coq_case(pool, ops, trace))
         if len(chk.samples) < 4 and len(ops) >= 4:
             chk.samples.append({"pool": pool, "ops": ops, "sdk_trace_first_step": trace[0]})
+    # further observation schedules and two containers alive at once (oracle only; the model has no cache and no shared state)
+    for idx, (pool, ops) in enumerate(cases):
+        mode = idx % 3
+        bad_s = run_sparse(pool, ops, mode)
+        chk.count(f"sparse-mode={mode}")
+        if bad_s:
+            small = shrink(pool, ops[:bad_s[0] + 1], lambda o: run_sparse(pool, o, mode) is not None)
+            msg2 = run_sparse(pool, small, mode)[1]
+            chk.fail(signature_of(msg2), msg2 + f" (observation schedule {mode})",
+                     {"pool": pool, "ops": small, "mode": mode, "how": "tools/c19.py run_sparse(pool, ops, mode)"})
+    n_pairs = 0
+    for idx in range(0, len(cases) - 1, 2):
+        (pool, ops_a), (pool_b, ops_b) = cases[idx], cases[idx + 1]
+        if pool != pool_b:
+            ops_b = [(o[0], pool[pool_b.index(o[1])]) + tuple(o[2:]) for o in ops_b]
+        schedule = [rng.randrange(2) for _ in range(2 * (len(ops_a) + len(ops_b)))]
+        n_pairs += 1
+        bad_p = run_pair(pool, ops_a, ops_b, schedule)
+        if bad_p:
+            chk.fail(signature_of("two containers: " + bad_p[1]), bad_p[1] + " (two containers alive at the same time)",
+                     {"pool": pool, "ops_a": ops_a, "ops_b": ops_b, "schedule": schedule,
+                      "how": "tools/c19.py run_pair(pool, ops_a, ops_b, schedule)"})
+    chk.cov["two_container_interleavings"] = n_pairs
     # _append_counter alone on many names
     from basyx.aas.adapter.aasx import DictSupplementaryFileContainer as D
     ac_terms = []
@@ -234,7 +374,8 @@ def run(chk):
     ]
     chk.assumptions = ["sha256 collision freedom", "file-like objects return their bytes from read()"]
     return chk.finish(level="proof",
-                      rule="seeded random add/delete sequences over 5 name pools x 4 contents x 3 content types "
+                      rule="seeded random add/delete sequences over 5 name pools x 4 contents x 6 content types (case / parameter variants), "
+                           "each also under three sparser observation schedules and pairwise interleaved on two live containers "
                            "(+ all sequences of length<=4 over 10 ops in the thorough tier); non-trivial = at least 2 ops; "
                            "distinct by (pool, ops)")
 
@@ -242,6 +383,14 @@ def run(chk):
 def replay(path):
     r = json.load(open(path))
     rp = r.get("replay") or {}
+    if "ops_a" in rp:
+        fail = run_pair(rp["pool"], [tuple(o) for o in rp["ops_a"]], [tuple(o) for o in rp["ops_b"]], rp["schedule"])
+        print("oracle:", fail)
+        return 1 if fail else 0
+    if "mode" in rp:
+        fail = run_sparse(rp["pool"], [tuple(o) for o in rp["ops"]], rp["mode"])
+        print("oracle:", fail)
+        return 1 if fail else 0
     if "ops" in rp:
         tr, fail = run_sdk(rp["pool"], [tuple(o) for o in rp["ops"]])
         print("oracle:", fail)
